@@ -379,7 +379,7 @@ def judge(ctx, binary, scripts, traces, tag, seen, flags):
     drifts = parallel(drift, sel, n=5)
     inconclusive = sum(1 for d in drifts if d == "inconclusive")
     ctx.log("%s: %d traces validated against CacheI (%d inconclusive)" % (tag, len(sel), inconclusive))
-    if inconclusive == len(sel):
+    if sel and inconclusive == len(sel) and not ctx.violations:
         raise Broken("conformance of CacheI to the code could not be established for any %s recording" % tag)
     if inconclusive:
         ctx.notes.append("%s: %d of %d CacheI validations ran out of time (no statement)" % (tag, inconclusive, len(sel)))
